@@ -151,6 +151,9 @@ def time_case(ctx, S, a, b, m, tag):
             s = prev.domain([a, b])
         elif mode == 1:
             s = prev.copy().domain([a, b])
+        elif mode == 2:
+            s = S.TimeScale().domain(iter([a, b]))  # any iterable of two instants, here a one-shot iterator
+            ctx.path("time.domain-from-an-iterator")
         else:
             s = S.TimeScale().domain([a, b])
         _REUSE["time"] = s
